@@ -151,6 +151,14 @@ type FuncV struct {
 
 type MapV struct{ Obj int }
 
+// MapIterV is a range-over-map iterator: the keys in the (nondeterministic)
+// order chosen when the range started, and the position reached.
+type MapIterV struct {
+	Obj   int
+	Order []int
+	Pos   int
+}
+
 // MapObjV is the content of a map object: exact keys in insertion order.
 type MapObjV struct {
 	K []Val
@@ -186,6 +194,8 @@ func cloneVal(v Val) Val {
 			n.E[i] = cloneVal(f)
 		}
 		return n
+	case *MapIterV:
+		return &MapIterV{Obj: x.Obj, Order: append([]int(nil), x.Order...), Pos: x.Pos}
 	case *MapObjV:
 		n := &MapObjV{}
 		for i := range x.K {
@@ -321,6 +331,8 @@ func fmtVal(v Val, ptrName func(int) string) string {
 		return fmt.Sprintf("func(%v|%s)", x.Fn, strings.Join(parts, ","))
 	case MapV:
 		return "map" + ptrName(x.Obj)
+	case *MapIterV:
+		return fmt.Sprintf("mapiter(%s,%v,%d)", ptrName(x.Obj), x.Order, x.Pos)
 	case *MapObjV:
 		parts := make([]string, len(x.K))
 		for i := range x.K {
@@ -341,6 +353,8 @@ func valRefs(v Val, out *[]int) {
 			*out = append(*out, x.Obj)
 		}
 	case MapV:
+		*out = append(*out, x.Obj)
+	case *MapIterV:
 		*out = append(*out, x.Obj)
 	case *StructV:
 		for _, f := range x.F {
